@@ -171,6 +171,11 @@ fn build(seeds: &[u16]) -> (CfgSpec, Vec<(String, String, bool)>, Vec<String>, S
         hidden_kind = "invisible-user".to_string();
         let h = "nh".to_string();
         nicks.push(h.clone());
+        // sometimes the hidden user is a user from the configuration (it has +r): nothing of that
+        // may show either
+        if s.chance(30) {
+            cfg.users.push(crate::cfgspec::UserSpec { name: "unh".into(), nick: "nh".into(), password: None, mask: None });
+        }
         script.push((h.clone(), "MODE nh +i".into(), true));
         // joins channels the observer is not in
         let mut chans = vec![];
